@@ -153,8 +153,8 @@ def random_call(rnd, c, step=0, kinds=None):
         nonin = [l for l in labs if c.gates[l].gate_type != G.INPUT and c.gates[l].operands]
         if not nonin:
             return None
-        root = rnd.choice(nonin)
-        cut, members, stack = [], [], [root]
+        roots = rnd.sample(nonin, min(len(nonin), rnd.choice([1, 1, 2])))
+        cut, members, stack = [], [], list(roots)
         seen = set()
         while stack:
             l = stack.pop()
@@ -162,22 +162,27 @@ def random_call(rnd, c, step=0, kinds=None):
                 continue
             seen.add(l)
             g = c.gates[l]
-            if l != root and (g.gate_type == G.INPUT or not g.operands or rnd.random() < 0.4):
+            if l not in roots and (g.gate_type == G.INPUT or not g.operands or rnd.random() < 0.4):
                 cut.append(l)
             else:
                 members.append(l)
                 stack.extend(g.operands)
+        cut = [l for l in cut if l not in members]
         if not cut:
             return None
+        mset = set(members)
+        # every member that is visible from outside the cone (an outer user, or a circuit output) must be
+        # mapped as an output of the replacement -- this includes members that also feed other members
+        outs = [m for m in members if m in roots or m in c.outputs
+                or any(m in c.gates[u].operands for u in c.gates if u not in mset)]
         # replacement: relabelled copy of the members
         ren = {l: f"r{step}_{i}" for i, l in enumerate(members)}
         subin = {l: f"ri{step}_{i}" for i, l in enumerate(cut)}
         gates = [(ren[l], c.gates[l].gate_type.name, [ren.get(o, subin.get(o)) for o in c.gates[l].operands]) for l in reversed(members)]
         if any(None in g[2] for g in gates):
             return None
-        # order gates topologically (members were discovered root-first)
-        sub_spec = ([subin[l] for l in cut], _toposort(gates, set(subin.values())), [ren[root]])
-        return dict(kind=k, sub_spec=sub_spec, inputs_mapping={l: subin[l] for l in cut}, outputs_mapping={root: ren[root]})
+        sub_spec = ([subin[l] for l in cut], _toposort(gates, set(subin.values())), [ren[o] for o in outs])
+        return dict(kind=k, sub_spec=sub_spec, inputs_mapping={l: subin[l] for l in cut}, outputs_mapping={o: ren[o] for o in outs})
     if k == "make_block":
         if not labs:
             return None
